@@ -166,7 +166,7 @@ impl Evaluator {
                         } else {
                             self.maybe_metatable(&left_value)
                                 || self.maybe_metatable(&self.evaluate(right))
-                                || self.has_side_effects(left)
+                                || left_side_effect
                                 || self.has_side_effects(right)
                         }
                     }
